@@ -122,11 +122,11 @@ Section Wire.
   Proof. reflexivity. Qed.
 
   Lemma plain_client st msg :
-    (match st with Some s => s < 200 \/ 300 <= s | None => True end) ->
+    (match st with Some s => 300 <= s | None => True end) ->
     snd (api_request (respond g [] (PPlain st msg))) = true.
   Proof.
     intros H. rewrite plain_resp. unfold api_request. cbn [status]. apply client_non2xx.
-    destruct st; [exact H|lia].
+    destruct st; lia.
   Qed.
 
   Lemma unmarshalable_resp cb v merr : marshalable v = false ->
@@ -143,7 +143,7 @@ Section Wire.
     match p with
     | PData v _ => marshalable v = false
     | PSys c | PCplx c _ | PApp c _ => c <> 0
-    | PPlain st _ => match st with Some s => s < 200 \/ 300 <= s | None => True end
+    | PPlain st _ => match st with Some s => 300 <= s | None => True end
     end.
 
   Lemma never_confused p :
@@ -187,6 +187,10 @@ Section Wire.
   Qed.
 End Wire.
 
+(* the assumed law of encoding/json, as a predicate on an oracle pair (used by Props/C19.v) *)
+Definition json_law (marshal : list (bytes * jv) -> bytes) (parse_view : bytes -> view) : Prop :=
+  forall m, forallb (fun kv => marshalable (snd kv)) m = true -> parse_view (marshal m) = view_of_members m.
+
 (* the envelope members the handlers marshal are marshalable exactly when the value is *)
 Lemma envelope_marshalable g v : forallb (fun kv => marshalable (snd kv)) (envelope g v) = marshalable v.
 Proof. cbn. now rewrite andb_true_r. Qed.
@@ -203,3 +207,117 @@ Proof. reflexivity. Qed.
 Example ex_round53 : round53 9007199254740993 = 9007199254740992 /\ round53 (-9007199254740995) = -9007199254740996
   /\ round53 (-7) = -7.
 Proof. vm_compute. auto. Qed.
+
+(* ---- WriteVersion ---- *)
+Fixpoint dval (n : Z) (s : bytes) : Z :=
+  match s with [] => n | c :: t => dval (n * 10 + (Z.of_N c - 48)) t end.
+
+Lemma is_digit_range c : is_digit c = true -> 0 <= Z.of_N c - 48 <= 9.
+Proof. unfold is_digit. intros H. apply andb_true_iff in H as [A B]. apply N.leb_le in A, B. lia. Qed.
+
+Lemma dval_ge ds : forall n, 0 <= n -> forallb is_digit ds = true -> n <= dval n ds.
+Proof.
+  induction ds as [|c t IH]; intros n Hn Hd; cbn [dval]; [lia|].
+  cbn in Hd. apply andb_true_iff in Hd as [Hc Ht]. pose proof (is_digit_range c Hc).
+  specialize (IH (n * 10 + (Z.of_N c - 48)) ltac:(lia) Ht). lia.
+Qed.
+
+Lemma atoi_scan_ok ds : forall n, 0 <= n -> forallb is_digit ds = true -> dval n ds <= max_u64 ->
+  atoi_scan n ds = ScanOk (dval n ds).
+Proof.
+  induction ds as [|c t IH]; intros n Hn Hd Hv; cbn [atoi_scan dval] in *; [reflexivity|].
+  cbn in Hd. apply andb_true_iff in Hd as [Hc Ht]. rewrite Hc. cbn [negb].
+  pose proof (is_digit_range c Hc) as Hr.
+  pose proof (dval_ge t (n * 10 + (Z.of_N c - 48)) ltac:(lia) Ht) as Hge.
+  unfold max_u64 in *.
+  destruct (18446744073709551615 / 10 + 1 <=? n) eqn:A.
+  - apply Z.leb_le in A. change (18446744073709551615 / 10 + 1) with 1844674407370955162 in A. lia.
+  - destruct (18446744073709551615 <? n * 10 + (Z.of_N c - 48)) eqn:B; [apply Z.ltb_lt in B; lia|].
+    apply IH; auto. lia.
+Qed.
+
+(* a plain decimal number that fits an int is read as itself *)
+Lemma atoi_digits ds : ds <> [] -> forallb is_digit ds = true -> dval 0 ds <= max_i64 -> atoi ds = dval 0 ds.
+Proof.
+  intros Hne Hd Hv. destruct ds as [|c t]; [congruence|].
+  assert (Hc : is_digit c = true) by (cbn in Hd; apply andb_true_iff in Hd as [Hc _]; exact Hc).
+  assert (Hscan : atoi_scan 0 (c :: t) = ScanOk (dval 0 (c :: t)))
+    by (apply atoi_scan_ok; auto; try lia; unfold max_u64, max_i64 in *; lia).
+  assert (Hc10 : (c = 48 \/ c = 49 \/ c = 50 \/ c = 51 \/ c = 52 \/ c = 53 \/ c = 54 \/ c = 55 \/ c = 56 \/ c = 57)%N).
+  { unfold is_digit in Hc. apply andb_true_iff in Hc as [A B]. apply N.leb_le in A, B. lia. }
+  unfold atoi.
+  repeat (destruct Hc10 as [-> | Hc10]); try subst c;
+    cbv iota beta; rewrite Hscan;
+    (destruct (max_i64 <? _) eqn:E; [apply Z.ltb_lt in E; lia|reflexivity]).
+Qed.
+
+Lemma split_on_notin sep a : forall cur, ~ In sep a -> split_on sep a cur = [rev cur ++ a].
+Proof.
+  induction a as [|c a IH]; intros cur Hn; cbn [split_on]; [now rewrite app_nil_r|].
+  destruct (c =? sep)%N eqn:E; [apply N.eqb_eq in E; subst; elim Hn; now left|].
+  rewrite IH by (intros Hi; apply Hn; now right). cbn [rev]. now rewrite <- app_assoc.
+Qed.
+
+Lemma split_on_first sep a rest : forall cur, ~ In sep a ->
+  split_on sep (a ++ sep :: rest) cur = (rev cur ++ a) :: split_on sep rest [].
+Proof.
+  induction a as [|c a IH]; intros cur Hn; cbn [split_on app].
+  - rewrite N.eqb_refl. now rewrite app_nil_r.
+  - destruct (c =? sep)%N eqn:E; [apply N.eqb_eq in E; subst; elim Hn; now left|].
+    rewrite IH by (intros Hi; apply Hn; now right). cbn [rev]. now rewrite <- app_assoc.
+Qed.
+
+Lemma digits_notin ds sep : forallb is_digit ds = true -> is_digit sep = false -> ~ In sep ds.
+Proof. intros Hd Hs Hi. rewrite forallb_forall in Hd. rewrite (Hd _ Hi) in Hs. discriminate. Qed.
+
+Definition is_num (ds : bytes) : Prop := ds <> [] /\ forallb is_digit ds = true /\ dval 0 ds <= max_i64.
+
+(* version = major.minor.revision-extra in plain decimal: the data object carries those numbers,
+   the version text itself and the Server signature *)
+Lemma version_fields g ma mi re ex :
+  is_num ma -> is_num mi -> is_num re -> is_num ex ->
+  let version := ma ++ [46%N] ++ mi ++ [46%N] ++ re ++ [45%N] ++ ex in
+  version_value g version =
+    JObj [(k_extra, JInt (dval 0 ex)); (k_major, JInt (dval 0 ma)); (k_minor, JInt (dval 0 mi));
+          (k_revision, JInt (dval 0 re)); (k_signature, JStr (srv_name g)); (k_version, JStr version)].
+Proof.
+  intros (Na & Da & Va) (Ni & Di & Vi) (Nr & Dr & Vr) (Ne & De & Ve) version.
+  unfold version_value.
+  assert (Hv : version = (ma ++ [46%N] ++ mi ++ [46%N] ++ re) ++ 45%N :: ex) by (unfold version; now rewrite <- !app_assoc).
+  assert (Hnd : ~ In 45%N (ma ++ [46%N] ++ mi ++ [46%N] ++ re)).
+  { intros Hi. repeat (apply in_app_or in Hi as [Hi|Hi]);
+      try (revert Hi; apply digits_notin; auto; fail); cbn in Hi; destruct Hi as [Hi|[]]; discriminate. }
+  assert (HS : split_on 45 version [] = [ma ++ [46%N] ++ mi ++ [46%N] ++ re; ex]).
+  { rewrite Hv. rewrite (split_on_first 45 _ ex [] Hnd). cbn [rev app].
+    rewrite (split_on_notin 45 ex []) by (apply digits_notin; auto). reflexivity. }
+  rewrite !HS.
+  assert (HP : split_on 46 (ma ++ [46%N] ++ mi ++ [46%N] ++ re) [] = [ma; mi; re]).
+  { cbn [app]. rewrite (split_on_first 46 ma _ []) by (apply digits_notin; auto).
+    rewrite (split_on_first 46 mi _ []) by (apply digits_notin; auto).
+    rewrite (split_on_notin 46 re []) by (apply digits_notin; auto). reflexivity. }
+  rewrite !HP.
+  unfold nth_part. cbn [nth_error]. rewrite !atoi_digits by auto. reflexivity.
+Qed.
+
+(* the version response is always the success envelope of that object *)
+Lemma version_marshalable g version : marshalable (version_value g version) = true.
+Proof. reflexivity. Qed.
+
+Example ex_version :
+  version_value {| srv_name := [79]%N; pid := 7 |} [49; 46; 50; 48; 46; 51; 45; 52]%N =
+  JObj [(k_extra, JInt 4); (k_major, JInt 1); (k_minor, JInt 20); (k_revision, JInt 3);
+        (k_signature, JStr [79]%N); (k_version, JStr [49; 46; 50; 48; 46; 51; 45; 52]%N)].
+Proof. vm_compute. reflexivity. Qed.
+(* errors of strconv.Atoi are dropped: a syntax error reads as 0, a range error as the nearest int *)
+Example ex_atoi : atoi [49; 95; 48]%N = 0 /\ atoi [45]%N = 0 /\ atoi [43; 53]%N = 5 /\
+  atoi [57;57;57;57;57;57;57;57;57;57;57;57;57;57;57;57;57;57;57;57;57;46]%N = max_i64.
+Proof. vm_compute. auto. Qed.
+
+(* totality of the client half on arbitrary bodies (for C07): whatever the decoder makes of the
+   untrusted body, apiParse + the status test return a code and an error flag; the model has no
+   panic or non-termination to exclude, and a body that is not an object with a numeric code is
+   always an error *)
+Lemma httpapi_client_total st v : exists c e, client st v = (c, e).
+Proof. destruct (client st v) as [c e]. now exists c, e. Qed.
+Lemma httpapi_client_bad_body st v : v = VFail \/ v = VNoCode \/ v = VNotNum -> client st v = (0, true).
+Proof. intros [-> | [-> | ->]]; reflexivity. Qed.
